@@ -7,8 +7,8 @@ THEOREMS = ["c06_gate_sound", "c06_identity_real", "c06_never_denied", "c06_deny
             "c06_basic_only_without_cookie", "c06_webui_without_password", "c06_csrf",
             "c06_routes", "c06_public_no_effect", "c06_csrf_partial", "c06_csrf_nonget",
             "c06_login_mints_password_only", "c06_login_ignores_attached", "c06_login_session_needs_second_factor", "c06_login_row_is_issuer", "c06_login_carry_refuted", "c06_obs_login_is_spec",
-            "c06_get_state_changers", "c06_get_effects_refuted", "c06_old_manage_refuted", "c06_old_register_finish_refuted", "c06_old_auth_finish_refuted", "c06_old_tls_refuted",
-            "c06_ip_extension_never_plain", "c06_ip_extension_cert_alone", "c06_extension_only_under_role_ca", "c06_obs_role_is_spec", "c06_role_issuer_by_key_type_refuted"]
+            "c06_get_state_changers", "c06_get_effects_refuted", "c06_old_manage_refuted", "c06_old_register_finish_refuted", "c06_old_auth_finish_refuted", "c06_old_tls_refuted"]
+THEOREMS += ["c06_ip_extension_never_plain", "c06_ip_extension_cert_alone", "c06_extension_only_under_role_ca", "c06_obs_role_is_spec", "c06_role_issuer_by_key_type_refuted"]   # fifth wave, C06-I
 
 def _field(line, name, default="?"):
     m = re.search(r"\b%s=(\S+)" % name, line or "")
